@@ -530,6 +530,8 @@ pub fn subs() -> Vec<Box<dyn SubCheck>> {
         Box::new(PropCheck::<(SecretControlSpec, u64), _> { name: "ups_queue_id_binding", cases: |t| t.pick(2_000, 50_000), strategy: |_| (secret_control_strategy(), any::<u64>()), oracle: run_ups_queue_id, max_shrink_iters: 2_000 }),
         Box::new(PropCheck::<Fuzz, _> { name: "decoder_total", cases: |t| t.pick(2_000_000, 40_000_000), strategy: fuzz_strategy, oracle: run_decoder_total, max_shrink_iters: 5_000 }),
     ];
+    // before the map subs: `map_aged` waits for its entries to age, which overlaps with this one
+    v.extend(crate::c18_open::subs());
     v.extend(c18_map::subs());
     v
 }
@@ -550,6 +552,20 @@ pub fn property() -> Property {
                stream_retransmit_space_binding (packet-space bit of a retransmitted stream packet) and ups_queue_id_binding (queue id \
                of UnknownPathSecret). decoder_total: raw and structure-biased bytes (valid tag byte, credential id, varints of all \
                widths) through every decoder and accessor, never a panic, never authenticated. map_forgery / map_aged: see c18_map. \
+               open_forgery (c18_open): two maps sharing 1-3 generated path secrets; the sender seals 1-12 datagram / stream packets \
+               (payload 0..1500 B) through Peer::seal_once / Map::seal_once_id / Entry::uni_sealer / Peer::pair / Entry::bidi_local \
+               with generated gaps (0..1100 unused key ids) between them; 1-40 deliveries in generated order, each the genuine bytes \
+               or a forged variant (byte flip in header / payload / tag / credentials, truncated tag, tag of another packet, zero \
+               tag, replaced payload, another packet re-labelled with this key id, this packet re-labelled with another or a not yet \
+               issued key id, genuine bytes through the other opener family); the receiver decodes, obtains the opener from \
+               Map::open_once / open_once_with_application_data / pair_for_credentials / secret_for_credentials by the credentials \
+               found in the packet and decrypts (copying and in-place); oracle: per path secret the C19 set model, advanced only by \
+               byte-identical copies of sealed packets: a forged variant is refused, emits no key_accepted / replay_* / *_sent / \
+               *_accepted / eviction / handshake event, leaves minimum_unseen_key_id, map size and peers unchanged; every genuine \
+               packet is accepted exactly when the model says so (also after forged packets naming its key id) with the exact \
+               payload; replays give ReplayDefinitelyDetected / ReplayPotentiallyDetected; finally every key id named by any \
+               delivery is probed against the model. Non-trivial: a genuine packet was accepted after a forged packet naming the \
+               same live path secret and the same, still fresh, key id had been refused. \
                Non-trivial (mutations): at least one mutant still decoded and was rejected by the cryptographic check; (map) the \
                forged packet names a live map entry.",
         assumptions: &[
